@@ -53,6 +53,9 @@ def observed_reports(dl):
     for d in dl:
         if d["code"] != "E032":
             continue
+        if d.get("level") != "Error":
+            out.append(("?", "reported with level %s: %s" % (d.get("level"), d["msg"])))
+            continue
         m = re.match(r"type M::T(\d+) illegally references itself: (.*)$", d["msg"])
         if not m:
             out.append(("?", d["msg"]))
@@ -118,7 +121,8 @@ def run(ck):
         rng.shuffle(edges)
         progs.append(program([rng.choice("SSE") for _ in range(n)], edges) + (fam,))
     mlines = [p[1] for p in progs]
-    ilines = ["diags - " + hx(p[0]) for p in progs]
+    # every other program is compiled with all lints allowed on the command line: no suppression reaches an error
+    ilines = ["diags %s %s" % ("A:All" if i % 2 else "-", hx(p[0])) for i, p in enumerate(progs)]
     m = core.run_model("cycles", mlines, chunk=5000)
     o = core.run_impl("diags", ilines, chunk=500, timeout=120)
     st = ck.stream("containment", description="struct/enum containment graphs, every edge through a wrapper form; observable: the E032 list in order: type, chain, and the (container, field) named by every note")
@@ -203,6 +207,31 @@ def run(ck):
         exp, obs = expected_reports(mo), observed_reports(dl)
         if exp != obs:
             ck.violation("enums-with-underlying-type", "cycle-missed" if len(obs) < len(exp) else ("acyclic-flagged" if not exp else "report-differs"), text, repr(exp), repr(obs), signature={"enum": "with underlying type"})
+    # 1i. the same programs with their types named by keywords written with a backslash (names of primitive types, mostly): a name is a name
+    KWN = ["int32", "string", "bool", "uint8", "float64", "varint62", "struct", "Sequence", "AnyClass", "module"]
+    pick_k = rng.sample(cyc, min(len(cyc), 300 if ck.tier == "quick" else 3000)) + rng.sample(acy, min(len(acy), 100 if ck.tier == "quick" else 1000))
+    kcases = []
+    for t, mo in pick_k:
+        names = sorted(set(_re.findall(r"\bT(\d+)\b", t)), key=int)
+        ren = {"T" + n: KWN[int(n) % len(KWN)] for n in names if int(n) < len(KWN) and rng.random() < 0.8}
+        t2 = _re.sub(r"\bT(\d+)\b", lambda m_: ("\\" + ren[m_.group(0)]) if m_.group(0) in ren else m_.group(0), t)
+        kcases.append((t2, mo, {v: k for k, v in ren.items()}))
+    o5 = core.run_impl("diags", ["diags - " + hx(t) for t, _, _ in kcases], chunk=500, timeout=120)
+    ck.stream("types-named-by-keywords", description="cyclic and acyclic containment programs of the first stream whose structs and enums are named by keywords written with a backslash (int32, string, bool, ..., struct, Sequence) "
+              "and referred to in the same way; observable: the E032 list, which must be that of the program with ordinary names")
+    for (text, mo, inv), oo in zip(kcases, o5):
+        ck.count("types-named-by-keywords", text, kind="cyclic" if mo != "none" else "acyclic")
+        dl = parse_diags(oo)
+        if dl is None:
+            ck.violation("types-named-by-keywords", "crash", text, mo, oo, signature={"observable": oo.split(" ")[0]})
+            continue
+        back = lambda x: _re.sub(r"(?<=::)(\w+)|(?<=')(\w+)(?=')", lambda m_: inv.get(m_.group(0), m_.group(0)), x)
+        for d in dl:
+            d["msg"] = back(d["msg"])
+            d["notes"] = [(sp_, back(nm)) for sp_, nm in d["notes"]]
+        exp, obs = expected_reports(mo), observed_reports(dl)
+        if exp != obs:       # other errors (an illegal dictionary key) may be reported besides
+            ck.violation("types-named-by-keywords", "cycle-missed" if len(obs) < len(exp) else ("acyclic-flagged" if not exp else "report-differs"), text, repr(exp), repr(obs), signature={"names": "keywords"})
     # 2. alias graphs: each alias is a primitive, another alias, or an anonymous type over aliases
     forms = [("int32", []), ] 
     def alias_forms(n):
@@ -276,7 +305,7 @@ def _graph_family(ck, name, cases, text_of, adj_of, reject_codes, desc):
     texts = [text_of(c) for c in cases]
     mlines = ["graph " + " / ".join((",".join(str(x) for x in a) if a else "-") for a in adj_of(c)) for c in cases]
     m = core.run_model("cycles", mlines, chunk=5000)
-    o = core.run_impl("diags", ["diags - " + (hx(t) if isinstance(t, str) else " ".join(hx(x) for x in t)) for t in texts], chunk=200, timeout=60)
+    o = core.run_impl("diags", ["diags %s %s" % ("A:All" if i % 2 else "-", hx(t) if isinstance(t, str) else " ".join(hx(x) for x in t)) for i, t in enumerate(texts)], chunk=200, timeout=60)
     texts = [t if isinstance(t, str) else "\n-- next file --\n".join(t) for t in texts]
     ck.stream(name, description=desc)
     for t, ml, mo, oo in zip(texts, mlines, m, o):
